@@ -378,7 +378,8 @@ def selftest_instrumenter():
     scr = scratch_dir()
     try:
         build(scr)
-        r = subprocess.run(["go1.26.8", "test", "-vet=off", "-count=1", "./dhcpv4/nclient4", "./dhcpv6/nclient6", "./dhcpv4/server4", "./dhcpv6/server6"],
+        r = subprocess.run(["go1.26.8", "test", "-vet=off", "-count=1", "./dhcpv4/nclient4", "./dhcpv6/nclient6", "./dhcpv4/server4", "./dhcpv6/server6",
+                            "./dhcpv4", "./dhcpv6", "./rfc1035label", "./iana"],
                            env=ENV, cwd=os.path.join(scr, "src"), stdout=subprocess.PIPE, stderr=subprocess.STDOUT, text=True)
         print(r.stdout)
         return 0 if r.returncode == 0 else 2
